@@ -3,146 +3,159 @@
 (* msg.Box (silent-mode buffer) at LOCK-STEP granularity, for C14.         *)
 (* A thread executes a program of public calls; it is parked at a yield    *)
 (* point (the verifYield one-liners placed immediately before a lock       *)
-(* acquisition in msg/msgbox.go); one model step = the thread runs from    *)
-(* its yield point to the next one:                                        *)
-(*   HandleMessage:  started -> forward                                    *)
-(*                           -> mark -> lookup -> [create ->] add          *)
-(*   Send:           send -> fwdsend -> {started -> forward}* (drain)      *)
-(*                        -> gcmark -> gcsweep                             *)
-(* (the yield points recv and limit are passed through: every sender is    *)
-(* within the limits.  While the epoch clock stands still maybeGC returns  *)
-(* at its period test and the gcmark / gcsweep points are not reached      *)
-(* (GCRuns = FALSE).  The gc steps describe the collector of the code      *)
-(* before its repair (GCRuns = TRUE): mark selected buffers whose lastUsed *)
-(* was still the zero time -- created, nothing added yet -- and sweep      *)
-(* removed such a buffer AND the started mark of its topic.)               *)
-(* Buffered lists are objects with identity (the code holds a pointer to a *)
-(* storedMessages that may meanwhile have been removed from the map).      *)
+(* acquisition in msg/msgbox.go, and before a call of the handler); one    *)
+(* model step = the thread runs from its yield point to the next one:      *)
+(*   HandleMessage:  decide -> forward                (topic started)      *)
+(*                   decide                            (queued behind a    *)
+(*                                                     running hand-over,  *)
+(*                                                     or held)            *)
+(*   Send:           send -> fwdsend -> {next -> forward}* -> next         *)
+(*                                      (only the Send that took the held  *)
+(*                                       messages runs the hand-over loop) *)
+(* The handler of the conformance harness stands for the dispatcher of     *)
+(* threshold.Scheme: for a message flagged ack it takes the lock of the    *)
+(* topic's session (yield point hlock, as threadSafeRBC does), records the *)
+(* message, calls Box.Send on the same topic from inside the lock (the     *)
+(* acknowledgement of the reliable broadcast) and releases the lock.       *)
+(* Calls nest, so a thread carries a stack of frames:                      *)
+(*   (recv | send) (handler send)*                                          *)
+(* This is the model of the REPAIRED buffer (fix 58b1a4d): decision and    *)
+(* store are one critical section, held messages move to a per-topic       *)
+(* hand-over queue, arrivals queue up behind a running hand-over.  The     *)
+(* model of the code before the repair (check-then-store race; deviations  *)
+(* stranded / orphan / overtake / stale-store-drained-later) is in the     *)
+(* history of this file.  The collector is not part of this model: while   *)
+(* the epoch clock stands still maybeGC returns at its period test (C15    *)
+(* covers expiry).                                                         *)
 (***************************************************************************)
 EXTENDS Integers, Sequences, FiniteSets, TLC
 
 CONSTANTS Threads,   \* thread names (strings)
-          Prog,      \* [Threads -> Seq(op)], op = [k |-> "recv", m |-> [id, src, topic]] | [k |-> "send", t |-> topic]
-          Topics,
-          MaxLists,
-          GCRuns     \* whether maybeGC gets past its period test (FALSE while the epoch clock stands still: the
-                     \* collector runs only once GCExpire/GCSweep epochs have passed since the last collection)
+          Prog,      \* [Threads -> Seq(op)], op = [k |-> "recv", m |-> [id, src, topic, ack]] | [k |-> "send", t |-> topic]
+          Topics
 
-None == [id |-> 0, src |-> 0, topic |-> ""]
+None == [id |-> 0, src |-> 0, topic |-> "", ack |-> FALSE]
 
 VARIABLES started,   \* set of topics with an entry in startedSending
-          pmap,      \* [Topics -> 0..MaxLists]     pendingMessages: topic -> list object (0 = no entry)
-          lists,     \* [1..MaxLists -> Seq(msg)]   the storedMessages objects ever allocated
-          nl,        \* number of allocated list objects
+          pend,      \* [Topics -> [has : BOOLEAN, msgs : Seq(msg)]]   pendingMessages
+          hand,      \* [Topics -> [has : BOOLEAN, msgs : Seq(msg)]]   hand-over queues
           inflight,  \* set of <<src, topic>>       totalInFlightTopicsBySender
+          hlock,     \* [Topics -> thread name or ""]   the dispatcher's per-session lock (harness handler)
           handed,    \* Seq(msg id)                 calls of MessageHandler.HandleMessage, in order
           fsent,     \* Seq(topic)                  calls of ForwardSend
-          th,        \* [Threads -> [oi, pc, cur, held, snap, di, nested]]
-          devStale,  \* named deviation: a message was stored although its topic had already started
-          devOvertake, \* named deviation: a message was forwarded directly while an earlier one of the same sender was still being drained
-          devSweep,  \* named deviation: the collector removed a fresh (still empty) buffer and un-started its topic
+          th,        \* [Threads -> [oi, stk]]      stk: Seq(frame), frame = [f, pc, m, tp, drainer]
           ev         \* last event (not part of the VIEW)
 
-vars == <<started, pmap, lists, nl, inflight, handed, fsent, th, devStale, devOvertake, devSweep, ev>>
-view == <<started, pmap, lists, nl, inflight, handed, fsent, th, devStale, devOvertake, devSweep>>
+vars == <<started, pend, hand, inflight, hlock, handed, fsent, th, ev>>
+view == <<started, pend, hand, inflight, hlock, handed, fsent, th>>
 
-FirstPC(op) == IF op.k = "recv" THEN "started" ELSE "send"
+Absent == [has |-> FALSE, msgs |-> <<>>]
 
-InitThread(t) == [oi |-> 1, pc |-> IF Prog[t] = <<>> THEN "done" ELSE FirstPC(Prog[t][1]),
-                  cur |-> IF Prog[t] # <<>> /\ Prog[t][1].k = "recv" THEN Prog[t][1].m ELSE None,
-                  held |-> 0, snap |-> <<>>, di |-> 0, nested |-> FALSE, gcdel |-> {}]
+RecvFrame(m)  == [f |-> "recv", pc |-> "decide", m |-> m, tp |-> m.topic, drainer |-> FALSE]
+SendFrame(tp) == [f |-> "send", pc |-> "send", m |-> None, tp |-> tp, drainer |-> FALSE]
+HandlerFrame(m) == [f |-> "handler", pc |-> "hlock", m |-> m, tp |-> m.topic, drainer |-> FALSE]
 
-Init == /\ started = {} /\ pmap = [t \in Topics |-> 0] /\ lists = [i \in 1..MaxLists |-> <<>>] /\ nl = 0
-        /\ inflight = {} /\ handed = <<>> /\ fsent = <<>>
+OpFrame(op) == IF op.k = "recv" THEN RecvFrame(op.m) ELSE SendFrame(op.t)
+
+InitThread(t) == [oi |-> 1, stk |-> IF Prog[t] = <<>> THEN <<>> ELSE <<OpFrame(Prog[t][1])>>]
+
+Init == /\ started = {} /\ pend = [t \in Topics |-> Absent] /\ hand = [t \in Topics |-> Absent]
+        /\ inflight = {} /\ hlock = [t \in Topics |-> ""] /\ handed = <<>> /\ fsent = <<>>
         /\ th = [t \in Threads |-> InitThread(t)]
-        /\ devStale = FALSE /\ devOvertake = FALSE /\ devSweep = FALSE /\ ev = ""
+        /\ ev = ""
 
-\* the thread finished the current public call (or the current drained message)
-\* r: the thread record after the step's own updates
+PC(t) == IF th[t].stk = <<>> THEN "done" ELSE th[t].stk[Len(th[t].stk)].pc
+
+Top(s) == s[Len(s)]
+Pop(s) == SubSeq(s, 1, Len(s) - 1)
+SetTop(s, fr) == [s EXCEPT ![Len(s)] = fr]
+
+\* the public call at the bottom of the stack returned: next operation of the program
 NextOp(t, r) ==
   LET oi2 == r.oi + 1 IN
-  IF oi2 <= Len(Prog[t])
-    THEN [r EXCEPT !.oi = oi2, !.pc = FirstPC(Prog[t][oi2]), !.nested = FALSE, !.snap = <<>>, !.di = 0, !.held = 0, !.gcdel = {},
-                   !.cur = IF Prog[t][oi2].k = "recv" THEN Prog[t][oi2].m ELSE None]
-    ELSE [r EXCEPT !.oi = oi2, !.pc = "done", !.nested = FALSE, !.snap = <<>>, !.di = 0, !.held = 0, !.gcdel = {}, !.cur = None]
+  [oi |-> oi2, stk |-> IF oi2 <= Len(Prog[t]) THEN <<OpFrame(Prog[t][oi2])>> ELSE <<>>]
 
-Advance(t, r) ==
-  IF r.nested
-    THEN IF r.di < Len(r.snap)
-           THEN [r EXCEPT !.di = r.di + 1, !.cur = r.snap[r.di + 1], !.pc = "started", !.held = 0]
-           ELSE IF GCRuns THEN [r EXCEPT !.pc = "gcmark", !.cur = None, !.held = 0]      \* drain finished: deferred maybeGC
-                ELSE NextOp(t, r)
-    ELSE NextOp(t, r)
+\* the handler call made by the top frame of s returned (s: stack with that frame on top)
+\* -> the stack afterwards, or <<>> when the public call at the bottom returned as well
+HandlerReturned(s) ==
+  IF Top(s).f = "recv" THEN Pop(s)                           \* HandleMessage returns
+  ELSE SetTop(s, [Top(s) EXCEPT !.pc = "next", !.m = None])   \* hand-over loop: next message
 
-\* is an earlier message of the same sender and topic still waiting in some thread's drain snapshot?
-BeingDrained(m) ==
-  \E u \in Threads :
-     LET waiting == IF th[u].pc = "fwdsend" THEN DOMAIN th[u].snap
-                    ELSE IF th[u].nested THEN {i \in DOMAIN th[u].snap : i >= th[u].di}
-                    ELSE {} IN
-     \E i \in waiting : th[u].snap[i].src = m.src /\ th[u].snap[i].topic = m.topic /\ th[u].snap[i].id # m.id
+\* the Send of the top frame returned: pop it; when it was called from a handler, the handler releases its lock and returns
+\* -> <<stack, released topic or "">>
+SendReturned(s) ==
+  LET s1 == Pop(s) IN
+  IF s1 = <<>> THEN <<s1, "">>
+  ELSE <<HandlerReturned(Pop(s1)), Top(s1).tp>>    \* Top(s1) is a handler frame
+
+Fin(t, r, s) == IF s = <<>> THEN NextOp(t, r) ELSE [r EXCEPT !.stk = s]
 
 Step(t) ==
-  LET r == th[t]  m == r.cur IN
-  /\ r.pc # "done"
+  LET r == th[t]  s == r.stk  fr == Top(s)  m == fr.m IN
+  /\ s # <<>>
   /\ ev' = t
-  /\ CASE r.pc = "started" ->     \* hasStartedSending
-            /\ th' = [th EXCEPT ![t].pc = IF m.topic \in started THEN "forward" ELSE "mark"]
-            /\ UNCHANGED <<started, pmap, lists, nl, inflight, handed, fsent, devStale, devOvertake, devSweep>>
-       [] r.pc = "forward" ->     \* MessageHandler.HandleMessage(msg)
+  /\ CASE fr.pc = "decide" ->     \* storeOrForward: decision and store in one critical section
+            IF m.topic \in started
+              THEN IF hand[m.topic].has
+                     THEN /\ hand' = [hand EXCEPT ![m.topic].msgs = Append(@, m)]     \* queue up behind the running hand-over
+                          /\ th' = [th EXCEPT ![t] = Fin(t, r, Pop(s))]
+                          /\ UNCHANGED <<started, pend, inflight, hlock, handed, fsent>>
+                     ELSE /\ th' = [th EXCEPT ![t].stk = SetTop(s, [fr EXCEPT !.pc = "forward"])]
+                          /\ UNCHANGED <<started, pend, hand, inflight, hlock, handed, fsent>>
+              ELSE /\ inflight' = inflight \cup {<<m.src, m.topic>>}
+                   /\ pend' = [pend EXCEPT ![m.topic] = [has |-> TRUE, msgs |-> Append(@.msgs, m)]]
+                   /\ th' = [th EXCEPT ![t] = Fin(t, r, Pop(s))]
+                   /\ UNCHANGED <<started, hand, hlock, handed, fsent>>
+       [] fr.pc = "forward" ->    \* MessageHandler.HandleMessage(msg)
+            IF m.ack
+              THEN /\ th' = [th EXCEPT ![t].stk = Append(s, HandlerFrame(m))]       \* the handler parks before its lock
+                   /\ UNCHANGED <<started, pend, hand, inflight, hlock, handed, fsent>>
+              ELSE /\ handed' = Append(handed, m.id)
+                   /\ th' = [th EXCEPT ![t] = Fin(t, r, HandlerReturned(s))]
+                   /\ UNCHANGED <<started, pend, hand, inflight, hlock, fsent>>
+       [] fr.pc = "hlock" ->      \* handler: lock of the session, record, acknowledge from inside the lock
+            /\ hlock[m.topic] = ""
+            /\ hlock' = [hlock EXCEPT ![m.topic] = t]
             /\ handed' = Append(handed, m.id)
-            /\ devOvertake' = (devOvertake \/ (~r.nested /\ BeingDrained(m)))
-            /\ th' = [th EXCEPT ![t] = Advance(t, r)]
-            /\ UNCHANGED <<started, pmap, lists, nl, inflight, fsent, devStale, devSweep>>
-       [] r.pc = "mark" ->        \* markTopicForSender
-            /\ inflight' = inflight \cup {<<m.src, m.topic>>}
-            /\ th' = [th EXCEPT ![t].pc = "lookup"]
-            /\ UNCHANGED <<started, pmap, lists, nl, handed, fsent, devStale, devOvertake, devSweep>>
-       [] r.pc = "lookup" ->      \* getOrCreateMessagesByTopic, read-locked lookup
-            /\ th' = [th EXCEPT ![t].pc = IF pmap[m.topic] # 0 THEN "add" ELSE "create", ![t].held = pmap[m.topic]]
-            /\ UNCHANGED <<started, pmap, lists, nl, inflight, handed, fsent, devStale, devOvertake, devSweep>>
-       [] r.pc = "create" ->      \* getOrCreateMessagesByTopic, write-locked double check + create
-            /\ IF pmap[m.topic] # 0
-                 THEN /\ th' = [th EXCEPT ![t].pc = "add", ![t].held = pmap[m.topic]]
-                      /\ UNCHANGED <<pmap, nl>>
-                 ELSE /\ nl' = nl + 1
-                      /\ pmap' = [pmap EXCEPT ![m.topic] = nl + 1]
-                      /\ th' = [th EXCEPT ![t].pc = "add", ![t].held = nl + 1]
-            /\ UNCHANGED <<started, lists, inflight, handed, fsent, devStale, devOvertake, devSweep>>
-       [] r.pc = "add" ->         \* storedMessages.add
-            /\ lists' = [lists EXCEPT ![r.held] = Append(@, m)]
-            /\ devStale' = (devStale \/ m.topic \in started)
-            /\ th' = [th EXCEPT ![t] = Advance(t, r)]
-            /\ UNCHANGED <<started, pmap, nl, inflight, handed, fsent, devOvertake, devSweep>>
-       [] r.pc = "send" ->        \* Send, critical section: mark started, snapshot, delete
-            LET tp == Prog[t][r.oi].t IN
+            /\ th' = [th EXCEPT ![t].stk = Append(s, SendFrame(m.topic))]
+            /\ UNCHANGED <<started, pend, hand, inflight, fsent>>
+       [] fr.pc = "send" ->       \* Send, critical section: mark started, move the held messages to the hand-over queue
+            LET tp == fr.tp IN
             /\ started' = started \cup {tp}
-            /\ pmap' = [pmap EXCEPT ![tp] = 0]
-            \* the senders of the drained buffer no longer have the topic in flight
-            /\ inflight' = IF pmap[tp] = 0 THEN inflight
-                           ELSE {x \in inflight : ~(x[2] = tp /\ \E i \in DOMAIN lists[pmap[tp]] : lists[pmap[tp]][i].src = x[1])}
-            /\ th' = [th EXCEPT ![t].pc = "fwdsend", ![t].snap = IF pmap[tp] = 0 THEN <<>> ELSE lists[pmap[tp]]]
-            /\ UNCHANGED <<lists, nl, handed, fsent, devStale, devOvertake, devSweep>>
-       [] r.pc = "fwdsend" ->     \* ForwardSend, then the deferred drain begins
-            /\ fsent' = Append(fsent, Prog[t][r.oi].t)
-            /\ th' = [th EXCEPT ![t] = Advance(t, [r EXCEPT !.nested = TRUE, !.di = 0])]
-            /\ UNCHANGED <<started, pmap, lists, nl, inflight, handed, devStale, devOvertake, devSweep>>
-       [] r.pc = "gcmark" ->      \* maybeGC / mark (read lock): buffers whose lastUsed is the zero time count as expired
-            /\ th' = [th EXCEPT ![t].pc = "gcsweep", ![t].gcdel = {tp \in Topics : pmap[tp] # 0 /\ lists[pmap[tp]] = <<>>}]
-            /\ UNCHANGED <<started, pmap, lists, nl, inflight, handed, fsent, devStale, devOvertake, devSweep>>
-       [] r.pc = "gcsweep" ->     \* sweep (write lock): drop the buffer, the senders' bookkeeping and the started mark
-            /\ pmap' = [tp \in Topics |-> IF tp \in r.gcdel THEN 0 ELSE pmap[tp]]
-            /\ started' = started \ r.gcdel
-            /\ inflight' = {x \in inflight : ~(x[2] \in r.gcdel /\ pmap[x[2]] # 0 /\ \E i \in DOMAIN lists[pmap[x[2]]] : lists[pmap[x[2]]][i].src = x[1])}
-            /\ devSweep' = (devSweep \/ r.gcdel # {})
-            /\ th' = [th EXCEPT ![t] = NextOp(t, r)]
-            /\ UNCHANGED <<lists, nl, handed, fsent, devStale, devOvertake>>
+            /\ pend' = [pend EXCEPT ![tp] = Absent]
+            /\ inflight' = IF ~pend[tp].has THEN inflight
+                           ELSE {x \in inflight : ~(x[2] = tp /\ \E i \in DOMAIN pend[tp].msgs : pend[tp].msgs[i].src = x[1])}
+            /\ hand' = IF pend[tp].has THEN [hand EXCEPT ![tp] = [has |-> TRUE, msgs |-> @.msgs \o pend[tp].msgs]] ELSE hand
+            /\ th' = [th EXCEPT ![t].stk = SetTop(s, [fr EXCEPT !.pc = "fwdsend", !.drainer = pend[tp].has /\ ~hand[tp].has])]
+            /\ UNCHANGED <<hlock, handed, fsent>>
+       [] fr.pc = "fwdsend" ->    \* ForwardSend; then the hand-over loop (deferred) if this Send took the held messages
+            /\ fsent' = Append(fsent, fr.tp)
+            /\ IF fr.drainer
+                 THEN /\ th' = [th EXCEPT ![t].stk = SetTop(s, [fr EXCEPT !.pc = "next"])]
+                      /\ UNCHANGED hlock
+                 ELSE LET res == SendReturned(s) IN
+                      /\ th' = [th EXCEPT ![t] = Fin(t, r, res[1])]
+                      /\ hlock' = IF res[2] = "" THEN hlock ELSE [hlock EXCEPT ![res[2]] = ""]
+            /\ UNCHANGED <<started, pend, hand, inflight, handed>>
+       [] fr.pc = "next" ->       \* hand-over loop: take the next queued message, or finish
+            IF hand[fr.tp].msgs = <<>>
+              THEN LET res == SendReturned(s) IN
+                   /\ hand' = [hand EXCEPT ![fr.tp] = Absent]
+                   /\ th' = [th EXCEPT ![t] = Fin(t, r, res[1])]
+                   /\ hlock' = IF res[2] = "" THEN hlock ELSE [hlock EXCEPT ![res[2]] = ""]
+                   /\ UNCHANGED <<started, pend, inflight, handed, fsent>>
+              ELSE /\ hand' = [hand EXCEPT ![fr.tp].msgs = Tail(@)]
+                   /\ th' = [th EXCEPT ![t].stk = SetTop(s, [fr EXCEPT !.pc = "forward", !.m = Head(hand[fr.tp].msgs)])]
+                   /\ UNCHANGED <<started, pend, inflight, hlock, handed, fsent>>
 
 Next == \E t \in Threads : Step(t)
 Spec == Init /\ [][Next]_vars
 
 -----------------------------------------------------------------------------
-Terminal == \A t \in Threads : th[t].pc = "done"
+Terminal == \A t \in Threads : th[t].stk = <<>>
+
+\* a thread that has not finished can always take a step unless it waits for a session lock; no cycle of such waits
+NoDeadlock == Terminal \/ \E t \in Threads : ENABLED Step(t)
 
 \* every message passed to Box.HandleMessage by a connection thread
 Received == UNION {{Prog[t][i].m : i \in {j \in DOMAIN Prog[t] : Prog[t][j].k = "recv"}} : t \in Threads}
@@ -161,12 +174,12 @@ PerSenderOrderOn(h) ==
   \A a, b \in Received : (a.src = b.src /\ a.topic = b.topic /\ Before(a, b)) =>
      \A i, j \in DOMAIN h : (h[i] = a.id /\ h[j] = b.id) => i < j
 
-NoDup == NoDupOn(handed)
-\* design-level statement: the named deviations are the ONLY way the pinned code can violate C14
 SentOn == {fsent[i] : i \in DOMAIN fsent}
-ExactlyOnceUnlessStale   == (Terminal /\ ~devStale /\ ~devSweep) => ExactlyOnceOn(handed, SentOn)
-OrderUnlessDeviation     == ~(devOvertake \/ devStale \/ devSweep) => PerSenderOrderOn(handed)
-\* what the property demands (violated by the pinned code: known findings)
+
+\* what C14 demands
+NoDup          == NoDupOn(handed)
 ExactlyOnce    == Terminal => ExactlyOnceOn(handed, SentOn)
 PerSenderOrder == PerSenderOrderOn(handed)
+\* nothing stays behind in a buffer of a started topic, no hand-over is left unfinished
+Clean          == Terminal => \A tp \in Topics : (tp \in SentOn => ~pend[tp].has) /\ ~hand[tp].has
 =============================================================================
